@@ -1,11 +1,140 @@
-import PyresampleModel.Model.Core
+import PyresampleModel.Model.Grid
 
 /-
-  C13 — model (stub: not built yet).
+  C13 — `area_config._extrapolate_information`, `_validate_variable`, `_round_shape`
+  (all quantities in projection units; unit conversion through PROJ is not modelled).
 -/
 namespace PyresampleModel.C13
 
+abbrev P2 := Rat × Rat
+abbrev P4 := Rat × Rat × Rat × Rat
+
+def absQ (q : Rat) : Rat := if 0 ≤ q then q else -q
+
+/-- `np.allclose(a, b)` for one element: `|a - b| <= 1e-8 + 1e-5 * |b|` -/
+def close1 (a b : Rat) : Bool := decide (absQ (a - b) ≤ 1 / 100000000 + 1 / 100000 * absQ b)
+
+def close2 (a b : P2) : Bool := close1 a.1 b.1 && close1 a.2 b.2
+def close4 (a b : P4) : Bool := close1 a.1 b.1 && close1 a.2.1 b.2.1 && close1 a.2.2.1 b.2.2.1 && close1 a.2.2.2 b.2.2.2
+
+/-- `_validate_variable`: `none` = ValueError('CONFLICTING DATA'); otherwise the newly found value wins -/
+def validate2 (given : Option P2) (found : P2) : Option P2 :=
+  match given with
+  | none => some found
+  | some g => if close2 g found then some found else none
+
+def validate4 (given : Option P4) (found : P4) : Option P4 :=
+  match given with
+  | none => some found
+  | some g => if close4 g found then some found else none
+
+/-- `_round_shape` on one number: keep if within 1e-8 of an integer, else round up when the
+fractional part is >= .01, then `int(round(.))` -/
+def roundDim (x : Rat) : Int :=
+  let x' := if absQ (x - (roundHalfEven x : Rat)) > 1 / 100000000 then
+      (if x - (pyFloor x : Rat) ≥ 1 / 100 then (pyCeil x : Rat) else x) else x
+  roundHalfEven x'
+
+structure Desc where
+  extent     : Option P4 := none   -- (x0, y0, x1, y1)
+  shape      : Option P2 := none   -- (height, width)
+  center     : Option P2 := none
+  radius     : Option P2 := none
+  resolution : Option P2 := none
+  ule        : Option P2 := none   -- upper_left_extent (x, y)
+deriving Repr
+
+structure Found where
+  extent : Option P4
+  shape  : Option P2
+deriving Repr, DecidableEq
+
+/-- `_extrapolate_information`; outer `none` = a conflict was detected (ValueError) -/
+def extrapolate (d : Desc) : Option Found := do
+  -- stage 1: centre / radius / upper-left extent
+  let (center, radius) ←
+    match d.extent with
+    | some e =>
+      let c ← validate2 d.center ((e.2.2.1 + e.1) / 2, (e.2.2.2 + e.2.1) / 2)
+      let r ← validate2 d.radius ((e.2.2.1 - e.1) / 2, (e.2.2.2 - e.2.1) / 2)
+      let _ ← validate2 d.ule (e.1, e.2.2.2)
+      pure (some c, some r)
+    | none =>
+      match d.ule, d.center with
+      | some u, some c =>
+        let r ← validate2 d.radius (c.1 - u.1, u.2 - c.2)
+        pure (some c, some r)
+      | _, _ => pure (d.center, d.radius)
+  -- stage 2: shape / radius from resolution
+  let (shape, radius) ←
+    match radius, d.resolution with
+    | some r, some res =>
+      let s ← validate2 d.shape ((roundDim (2 * r.2 / res.2) : Rat), (roundDim (2 * r.1 / res.1) : Rat))
+      pure (some s, some r)
+    | _, _ =>
+      match d.resolution, d.shape with
+      | some res, some s =>
+        let r ← validate2 radius (res.1 * s.2 / 2, res.2 * s.1 / 2)
+        pure (some s, some r)
+      | _, _ => pure (d.shape, radius)
+  -- stage 3: the extent
+  let extent ←
+    match center, radius with
+    | some c, some r => (validate4 d.extent (c.1 - r.1, c.2 - r.2, c.1 + r.1, c.2 + r.2)).map some
+    | _, _ =>
+      match d.ule, radius with
+      | some u, some r => (validate4 d.extent (u.1, u.2 - 2 * r.2, u.1 + 2 * r.1, u.2)).map some
+      | _, _ => pure d.extent
+  pure { extent := extent, shape := shape }
+
+/-- `create_area_def` after unit handling: nothing to extrapolate when extent and shape are both given -/
+def createArea (d : Desc) : Option Found :=
+  match d.extent, d.shape with
+  | some e, some s => some { extent := some e, shape := some s }
+  | _, _ => extrapolate d
+
+/-! ### driver -/
+open Wire
+
+def p2? : List String → Option (Option P2 × List String)
+  | "none" :: rest => some (none, rest)
+  | a :: b :: rest => do
+    let a ← rat? a; let b ← rat? b
+    some (some (a, b), rest)
+  | _ => none
+
+def p4? : List String → Option (Option P4 × List String)
+  | "none" :: rest => some (none, rest)
+  | a :: b :: c :: d :: rest => do
+    let a ← rat? a; let b ← rat? b; let c ← rat? c; let d ← rat? d
+    some (some (a, b, c, d), rest)
+  | _ => none
+
+def showO2 : Option P2 → String
+  | none => "none"
+  | some p => showRat p.1 ++ " " ++ showRat p.2
+
+def showO4 : Option P4 → String
+  | none => "none"
+  | some p => showRat p.1 ++ " " ++ showRat p.2.1 ++ " " ++ showRat p.2.2.1 ++ " " ++ showRat p.2.2.2
+
 def handle : List String → Option String
+  | "create" :: rest => do
+    -- create <extent|none> <shape|none> <center|none> <radius|none> <resolution|none> <ule|none>
+    let (e, t) ← p4? rest
+    let (s, t) ← p2? t
+    let (c, t) ← p2? t
+    let (r, t) ← p2? t
+    let (res, t) ← p2? t
+    let (u, t) ← p2? t
+    if t ≠ [] then none else
+    if (match res with | some q => decide (q.1 = 0 ∨ q.2 = 0) | none => false) then some "err:zerodiv" else
+    match createArea { extent := e, shape := s, center := c, radius := r, resolution := res, ule := u } with
+    | none => some "err:conflict"
+    | some f => some ("extent " ++ showO4 f.extent ++ " shape " ++ showO2 f.shape)
+  | ["rounddim", x] => do
+    let x ← rat? x
+    some (toString (roundDim x))
   | _ => none
 
 end PyresampleModel.C13
